@@ -204,4 +204,51 @@ PROPS = {
         trusted_base=COMMON_TRUST,
         assumptions=["nc idempotent; nc equal on numerically equal spellings"],
     ),
+
+    "C02": dict(
+        tables=["parse"],
+        determined=True,
+        projection=lambda case, reply: " ".join(reply.split(" ")[:2]) if reply.startswith("ok ") else "E",
+        technique="Lean 4 theorems on the lexical layer (numbers verbatim, literals, key lookup on parser-built objects from the C06 invariant) + exhaustive differential execution of the decoded value (all 65,536 \\uXXXX, surrogate pairs, raw scalars, backslash+ASCII) against the model and an independent decoder",
+        level_text=("PARTIAL proof. Proved in Lean, for every context and option record: the number value returned is exactly the text consumed (byte-for-byte, any length); null/true/false come from exactly those spellings; "
+                    "on an object built by pushing entries in source order (what the parser does) get/get_entries return exactly the entries carrying the key in source order and index_of the first (from the C06 invariant). "
+                    "The full statement (value = abstract content of the document, incl. string decoding per RFC 8259 §7 and container structure: C02_full) awaits the parser-vs-grammar theorem; it is covered by comparing the decoded VALUE of the real parser "
+                    "with the Lean model and with an independent grammar-derived decoder on: all 65,536 \\uXXXX escapes, every 17th of the 1,048,576 surrogate pairs (thorough: all), every 13th scalar value as a raw character (thorough: all 1,112,064), all backslash+ASCII pairs, "
+                    "value and key position, the bounded-exhaustive document streams of C01 and grammar-directed documents with duplicate keys and exotic number spellings."),
+        level_note="Trusted: Lean kernel; model validated by correspondence; harness reference decoder (refjson.rs).",
+        rule="request = text + options; value projection (`ok <value>`). Non-trivial = accepted; distinct request lines",
+        strength="partial: number/literal/lookup clauses proved; string decoding and structure tested exhaustively within bounds",
+        trusted_base=COMMON_TRUST + ["harness reference decoder"],
+        assumptions=[],
+    ),
+    "C05": dict(
+        tables=["parse"],
+        determined=True,
+        projection=lambda case, reply: reply.split(" ")[2] if reply.startswith("ok ") and len(reply.split(" ")) > 2 else ("ok" if reply.startswith("ok") else "E"),
+        technique="Lean 4 theorems: every leaf fragment gets exactly one code-map entry with its exact byte span and volume 1, positions are UTF-8 byte offsets; exhaustive differential execution of the whole code map against the model and independent reference spans",
+        level_text=("PARTIAL proof. Proved in Lean for every context and option record: lexing a leaf fragment (null, boolean, number, string, key) appends exactly one entry, in reservation (= pre-) order, whose span runs from the fragment's first to just after its last character and whose volume is 1; "
+                    "positions advance by the UTF-8 length of the consumed characters, and a successful parse ends at the byte length of the input. The container clauses (entry spans key..value, volumes = subtree sizes, root volume = length: C05_full) await the machine-vs-recursive-descent theorem; "
+                    "they are covered by comparing the complete code map of the real parser with the model and with independently computed reference spans/volumes (via both the string and byte-slice entry points) on the bounded-exhaustive token/character streams "
+                    "(empty containers at every position, arbitrary interleaved whitespace), multi-byte characters, escapes and grammar-directed documents; plus the direct checks 'one entry per traversal fragment, root volume = length, volumes >= 1'."),
+        level_note="Trusted: Lean kernel; model validated by correspondence; harness reference spans (refjson.rs).",
+        rule="request = text + options; code-map projection. Non-trivial = accepted; distinct request lines",
+        strength="partial: leaf clause + byte positions proved; containers tested",
+        trusted_base=COMMON_TRUST + ["harness reference spans"],
+        assumptions=[],
+    ),
+    "C07": dict(
+        tables=["parse"],
+        determined=True,
+        projection=lambda case, reply: reply if reply.startswith("E ") else "ok",
+        technique="Lean 4 theorem by functional induction over the parsing machine: every error offset is the UTF-8 length of an input prefix and Unexpected carries the character found there (None iff end of input); viable-prefix clause tested against an independent LL(1) recogniser",
+        level_text=("PARTIAL proof. Proved in Lean for all inputs (incl. failing streams) and all option records (C07_boundary_partial and corollaries): every offset in every error is p = utf8Len(pre) for a prefix pre of the input (a character boundary inside the input); "
+                    "Unexpected(p, c) carries exactly the character of the input at p and None exactly when p is the input length; InvalidUtf8 is reported at the end of the well-formed prefix (= the first ill-formed sequence) and only for ill-formed input; surrogate-error spans have both ends on boundaries, in order. "
+                    "Not yet proved: that p is the length of the LONGEST viable prefix (C07_viable_full) and that surrogate spans lie inside the escape(s). Both are tested on every rejected input of the C01 streams against an independent predictive (LL(1)) recogniser written from the grammar "
+                    "(bounded-exhaustive strings, every single-character edit/truncation of corpus documents, damaged generated documents) and a direct span-shape check. The MissingLowSurrogate overshoot found by this check was repaired (fix: commit)."),
+        level_note="Trusted: Lean kernel; model validated by correspondence (full error projection); harness reference recogniser.",
+        rule="request = text/bytes + options; error projection (variant, offsets, payload). Non-trivial = accepted inputs are trivial here: non-trivial counts distinct rejected... (harness counts accepted as non-trivial; see distribution.err_* for rejected kinds)",
+        strength="partial: boundary/character clause proved; viable-prefix maximality tested",
+        trusted_base=COMMON_TRUST + ["harness reference recogniser"],
+        assumptions=[],
+    ),
 }
